@@ -78,7 +78,8 @@ Total(f) == f["call"] + f["reader"] + f["keys"] + f["queue"] + f["build"] + f["p
 KParse  == 3                                  \* parser / composer / constructor units per token
 QMax    == MaxKey + MaxCol + 6                \* len(tokens)
 KMax    == IF MaxFlow + 1 < MaxKey + 2 THEN MaxFlow + 1 ELSE MaxKey + 2    \* len(possible_simple_keys)
-BufMax  == Block + MaxRun + 3                 \* len(buffer)
+BufMax  == 2 * Block + MaxRun + 3             \* len(buffer): determine_encoding has one block in raw_buffer already
+                                              \* when the first update() reads another
 CMax    == 4 * BufMax + 2 * Block + 3 * (1 + 3 * KMax) + 3 * QMax + 4 * MaxRun + 24   \* cost of one action
 SPC     == 8                                  \* actions per consumed character
 FuelCap == 8 * (QMax + MaxCol + 4)            \* pending obligations: queued tokens, open block collections
@@ -132,11 +133,14 @@ Update(r, length) ==
   ELSE LET trim  == Variant # "nobuftrim"      \* the negative control keeps the consumed prefix
            keep  == IF trim THEN r.blen - r.ptr ELSE r.blen
            p2    == IF trim THEN 0 ELSE r.ptr
-           k     == Blocks(keep - p2, length)
+           pre   == IF r.pre THEN Block ELSE 0                         \* raw_buffer filled by determine_encoding
+           k0    == Blocks(keep - p2 + pre, length)
+           k     == IF r.pre /\ k0 = 0 THEN 1 ELSE k0                   \* the first update always reads
            copy  == (IF trim THEN keep ELSE 0)                         \* the slice
-                    + k * keep + Block * ((k * (k + 1)) \div 2)         \* buffer += data, k times
-                    + k * Block                                         \* decode + check_printable of each block
-       IN  Charge(Charge([r EXCEPT !.blen = keep + k * Block, !.ptr = p2], "reader", copy), "call", 1 + 3 * k)
+                    + k * (keep + pre) + Block * ((k * (k + 1)) \div 2) \* buffer += data, k times
+                    + k * Block + pre                                   \* decode + check_printable of each block
+       IN  Charge(Charge([r EXCEPT !.blen = keep + pre + k * Block, !.ptr = p2, !.pre = FALSE], "reader", copy),
+                  "call", 1 + 3 * k)
 
 Peek(r, i) ==                                  \* peek(i), i = 0 is the character under the pointer
   LET r1 == IF Stream /\ r.ptr + i >= r.blen THEN Update(r, i + 1) ELSE r
@@ -459,7 +463,7 @@ AQuotedBreaks == Ready("qbreaks") /\ Commit(ScanQuotedBreaks(Fresh))
 AAnchor      == Ready("anchor")  /\ Commit(ScanAnchor(Fresh))
 
 Init ==
-  /\ m = [pc |-> "idle", blen |-> 0, ptr |-> 0, eof |-> ~Stream, col |-> 0,
+  /\ m = [pc |-> "idle", blen |-> 0, ptr |-> 0, eof |-> ~Stream, pre |-> Stream, col |-> 0,
           qlen |-> 1,                           \* STREAM-START is queued by Scanner.__init__
           done |-> FALSE, flow |-> 0, indent |-> -1, indents |-> <<>>, allow |-> TRUE,
           keys |-> [lv \in Levels |-> NoKey], rl |-> 0, sl |-> 0, vlen |-> 0, nanch |-> 0, c |-> Z, fw |-> 0,
